@@ -86,7 +86,8 @@ func genAccP(r *gen.Rand) []string {
 	}
 	cfg := gen.Pick(r, cfgsPlain)
 	if r.Chance(1, 3) {
-		cfg, h = "f", padToSizeClass(h)
+		// fasthttp strips trailing optional whitespace from a header value: pad what it will store
+		cfg, h = "f", padToSizeClass(strings.TrimRight(h, " \t"))
 	}
 	return []string{cfg, gen.Hex(h), gen.HexList(ps)}
 }
